@@ -27,6 +27,7 @@ package main
 import (
 	"fmt"
 	"go/ast"
+	"go/token"
 	"go/types"
 	"sort"
 	"strings"
@@ -38,6 +39,7 @@ type KvmSem struct {
 	Call                *ast.CallExpr
 	Fn                  *ast.FuncDecl
 	RecvVar             types.Object
+	StateArg, AbvArg    int // f(&X, abv): positions of the state and abbreviation arguments (StateArg < 0: method call)
 	Labels              []string // abbreviations M accepts on the zero state
 	DupOK               bool
 	DupWhy              string
@@ -210,19 +212,15 @@ func (p *Pkg) kvmSem(m *parseModel) *KvmSem {
 		ks.Why = "element loop not recognised"
 		return ks
 	}
-	// the defined-once call: X.M(abv) in the loop, X a local of a package type other than the vector type
-	ast.Inspect(m.loop, func(n ast.Node) bool {
-		c, ok := n.(*ast.CallExpr)
-		if !ok || len(c.Args) != 1 || identObj(info, c.Args[0]) != m.abvObj || ks.Call != nil {
-			return true
+	// the defined-once call: X.M(abv) or f(&X, abv) in the loop, X a local of a
+	// package type other than the vector type
+	localOfPkgType := func(e ast.Expr) *types.Var {
+		if u, ok := e.(*ast.UnaryExpr); ok && u.Op == token.AND {
+			e = u.X
 		}
-		se, ok := c.Fun.(*ast.SelectorExpr)
-		if !ok {
-			return true
-		}
-		rv, _ := identObj(info, se.X).(*types.Var)
-		if rv == nil || rv.Parent() == p.P.Types.Scope() {
-			return true
+		rv, _ := identObj(info, e).(*types.Var)
+		if rv == nil || rv.Parent() == p.P.Types.Scope() || rv.IsField() {
+			return nil
 		}
 		t := rv.Type()
 		if pt, ok := t.(*types.Pointer); ok {
@@ -230,17 +228,48 @@ func (p *Pkg) kvmSem(m *parseModel) *KvmSem {
 		}
 		named, ok := t.(*types.Named)
 		if !ok || named.Obj().Pkg() != p.P.Types || types.Identical(named, p.T) {
+			return nil
+		}
+		return rv
+	}
+	ks.StateArg, ks.AbvArg = -1, 0
+	ast.Inspect(m.loop, func(n ast.Node) bool {
+		c, ok := n.(*ast.CallExpr)
+		if !ok || ks.Call != nil || c == m.setCall {
 			return true
 		}
 		fn := calleeOf(info, c)
 		if fn == nil || p.FuncObj[fn] == nil {
 			return true
 		}
-		ks.Call, ks.Fn, ks.RecvVar = c, p.FuncObj[fn], rv
+		abvIdx := -1
+		for i, a := range c.Args {
+			if identObj(info, a) == m.abvObj {
+				abvIdx = i
+			}
+		}
+		if abvIdx < 0 {
+			return true
+		}
+		if se, ok := c.Fun.(*ast.SelectorExpr); ok && len(c.Args) == 1 && p.FuncObj[fn].Recv != nil {
+			if rv := localOfPkgType(se.X); rv != nil {
+				ks.Call, ks.Fn, ks.RecvVar, ks.AbvArg = c, p.FuncObj[fn], rv, 0
+			}
+			return true
+		}
+		if p.FuncObj[fn].Recv == nil && len(c.Args) == 2 {
+			if rv := localOfPkgType(c.Args[1-abvIdx]); rv != nil {
+				_, amp := c.Args[1-abvIdx].(*ast.UnaryExpr)
+				_, isPtr := rv.Type().(*types.Pointer)
+				if amp || isPtr {
+					ks.Call, ks.Fn, ks.RecvVar, ks.AbvArg, ks.StateArg = c, p.FuncObj[fn], rv, abvIdx, 1-abvIdx
+				}
+			}
+		}
 		return true
 	})
 	if ks.Call == nil {
-		ks.Why = "no call X.M(abbreviation) on a local of a package type in the element loop"
+		ks.Why = "no call X.M(abbreviation) or f(&X, abbreviation) on a local of a package type in the element loop"
 		return ks
 	}
 	gm := p.GetModel()
@@ -254,14 +283,23 @@ func (p *Pkg) kvmSem(m *parseModel) *KvmSem {
 		in := newIn()
 		st := &sstate{frames: []*sframe{{vars: map[types.Object]sval{ks.RecvVar: state}, fd: m.fd}}}
 		var recv sval
-		if ro := p.recvObj(ks.Fn); ro != nil {
-			if _, ptr := ro.Type().(*types.Pointer); ptr {
-				recv = sval{k: skPtr, ref: &sref{depth: 0, obj: ks.RecvVar}}
-			} else {
-				recv = state
+		var res sval
+		var err error
+		if ks.StateArg >= 0 {
+			args := make([]sval, 2)
+			args[ks.AbvArg] = conc(vStr(label))
+			args[ks.StateArg] = sval{k: skPtr, ref: &sref{depth: 0, obj: ks.RecvVar}}
+			res, err = in.inline(st, ks.Fn, sval{}, false, args, ks.Call)
+		} else {
+			if ro := p.recvObj(ks.Fn); ro != nil {
+				if _, ptr := ro.Type().(*types.Pointer); ptr {
+					recv = sval{k: skPtr, ref: &sref{depth: 0, obj: ks.RecvVar}}
+				} else {
+					recv = state
+				}
 			}
+			res, err = in.inline(st, ks.Fn, recv, true, []sval{conc(vStr(label))}, ks.Call)
 		}
-		res, err := in.inline(st, ks.Fn, recv, true, []sval{conc(vStr(label))}, ks.Call)
 		if err != nil {
 			return sval{}, sval{}, in, err
 		}
@@ -419,6 +457,26 @@ func (p *Pkg) kvmSem(m *parseModel) *KvmSem {
 	st := &sstate{frames: []*sframe{{vars: map[types.Object]sval{ks.RecvVar: G}, fd: m.fd}}}
 	if m.objVar != nil {
 		st.top().vars[m.objVar] = conc(Val{K: VOpaque, S: "obj"})
+	}
+	// error variables declared before the loop (single-exit style: `err = …;
+	// break`, one test after the loop): when the loop ends normally they are
+	// nil — every failure leaves it (R01.prop decides that separately)
+	for _, s := range m.fd.Body.List {
+		if s == m.loop {
+			break
+		}
+		ast.Inspect(s, func(n ast.Node) bool {
+			if id, ok := n.(*ast.Ident); ok {
+				if o, ok := info.Defs[id].(*types.Var); ok && o != nil && !o.IsField() {
+					if _, isIface := o.Type().Underlying().(*types.Interface); isIface {
+						if _, has := st.top().vars[o]; !has {
+							st.top().vars[o] = conc(Val{K: VNil})
+						}
+					}
+				}
+			}
+			return true
+		})
 	}
 	outs, err := in.execList(st, post)
 	if err != nil {
